@@ -375,3 +375,145 @@ theorem interp_reproduces {F : Type} [Field F] {n : Nat} (K : Matrix (Fin n) (Fi
   simp only [Matrix.mulVec, dotProduct]; ring
 
 end Darsia.Sig
+
+namespace Darsia.Sig
+
+/-! ### nearest-neighbour resize of label maps -/
+
+theorem nearIdx_lt {n : Nat} (N x : Nat) (hn : 0 < n) : nearIdx n N x < n := by
+  unfold nearIdx; omega
+
+theorem nearIdx_id {n x : Nat} (hx : x < n) : nearIdx n n x = x := by
+  unfold nearIdx
+  rw [Nat.mul_div_cancel x (by omega : 0 < n)]
+  omega
+
+theorem nearIdx_mono (n N : Nat) {x y : Nat} (h : x ≤ y) : nearIdx n N x ≤ nearIdx n N y := by
+  unfold nearIdx
+  have : x * n / N ≤ y * n / N := Nat.div_le_div_right (Nat.mul_le_mul_right n h)
+  omega
+
+theorem listGetD_mem {α} (l : List α) (i : Nat) (d : α) (h : i < l.length) : listGetD l i d ∈ l := by
+  simp [listGetD, List.getElem?_eq_getElem h]
+
+/-- shape of the resized map -/
+theorem resizeNearest_shape (src : List (List Nat)) (H W : Nat) :
+    (resizeNearest src H W).length = H ∧ ∀ row ∈ resizeNearest src H W, row.length = W := by
+  constructor
+  · simp [resizeNearest]
+  · intro row hr
+    simp only [resizeNearest, List.mem_map, List.mem_range] at hr
+    obtain ⟨i, _, rfl⟩ := hr
+    simp
+
+/-- no new labels: every entry of the resized map is an entry of the source (non-empty rectangular source) -/
+theorem resizeNearest_subset (src : List (List Nat)) (w H W : Nat) (hh : 0 < src.length) (hw : 0 < w)
+    (hrect : ∀ row ∈ src, row.length = w) :
+    ∀ row ∈ resizeNearest src H W, ∀ v ∈ row, ∃ srow ∈ src, v ∈ srow := by
+  intro row hr v hv
+  simp only [resizeNearest, List.mem_map, List.mem_range] at hr
+  obtain ⟨i, _, rfl⟩ := hr
+  simp only [List.mem_map, List.mem_range] at hv
+  obtain ⟨j, _, rfl⟩ := hv
+  have hrow := listGetD_mem src (nearIdx src.length H i) [] (nearIdx_lt H i hh)
+  refine ⟨_, hrow, ?_⟩
+  apply listGetD_mem
+  rw [hrect _ hrow]
+  exact nearIdx_lt W j hw
+
+/-! ### the wrapper with linear sub-models is the label-wise linear model -/
+
+theorem wrap_linear_eq_het (L : Nat) (s o : List Rat) (p : Pixel) (hs : p.label < s.length) (ho : p.label < o.length) :
+    wrapApplyPix (List.zipWith M.linear s o) p = (M.het L s o).applyPix p := by
+  have : (List.zipWith M.linear s o)[p.label]? = some (M.linear (listGetD s p.label 0) (listGetD o p.label 0)) := by
+    simp [List.getElem?_zipWith, listGetD, List.getElem?_eq_getElem hs, List.getElem?_eq_getElem ho]
+  simp [wrapApplyPix, this, M.applyPix]
+
+end Darsia.Sig
+
+namespace Darsia.Sig
+
+/-! ### the cached label map never depends on the call history -/
+
+theorem resizeNearest_id (src : List (List Nat)) (w : Nat) (hrect : ∀ row ∈ src, row.length = w) :
+    resizeNearest src src.length w = src := by
+  apply List.ext_getElem
+  · simp [resizeNearest]
+  · intro i h1 h2
+    have hi : i < src.length := h2
+    simp only [resizeNearest, List.getElem_map, List.getElem_range]
+    have hrow : listGetD src (nearIdx src.length src.length i) [] = src[i] := by
+      rw [nearIdx_id hi]; simp [listGetD, List.getElem?_eq_getElem hi]
+    rw [hrow]
+    have hlen : (src[i]).length = w := hrect _ (List.getElem_mem hi)
+    apply List.ext_getElem
+    · simp [hlen]
+    · intro j hj1 hj2
+      have hj : j < (src[i]).length := hj2
+      simp only [List.getElem_map, List.getElem_range]
+      rw [hlen, ← hlen, nearIdx_id hj]
+      simp [listGetD, List.getElem?_eq_getElem hj]
+
+theorem shapeOf_resize (src : List (List Nat)) (H W : Nat) (hH : 0 < H) : shapeOf (resizeNearest src H W) = (H, W) := by
+  have h1 := (resizeNearest_shape src H W).1
+  have h2 := (resizeNearest_shape src H W).2
+  unfold shapeOf
+  rw [h1]
+  congr 1
+  apply h2
+  apply listGetD_mem
+  omega
+
+/-- the cached map is the original or a resize of the original -/
+def CacheInv (orig c : List (List Nat)) : Prop := c = orig ∨ ∃ H W, 0 < H ∧ c = resizeNearest orig H W
+
+theorem labelsFor_inv (orig : List (List Nat)) (H W : Nat) (hH : 0 < H) : CacheInv orig (labelsFor orig H W) := by
+  unfold labelsFor; split
+  · exact Or.inl rfl
+  · exact Or.inr ⟨H, W, hH, rfl⟩
+
+theorem cacheStep_eq (orig c : List (List Nat)) (w H W : Nat) (hrect : ∀ row ∈ orig, row.length = w)
+    (hw : (listGetD orig 0 []).length = w) (hc : CacheInv orig c) (hH : 0 < H) :
+    cacheStep orig c H W = labelsFor orig H W := by
+  have hsame : shapeOf orig = (H, W) → resizeNearest orig H W = orig := by
+    intro hs
+    simp only [shapeOf, Prod.mk.injEq] at hs
+    rw [← hs.1, ← hs.2, hw]
+    exact resizeNearest_id orig w hrect
+  have hlab : labelsFor orig H W = resizeNearest orig H W := by
+    unfold labelsFor; split
+    · rename_i h
+      exact (hsame (by simp [shapeOf, h.1, h.2])).symm
+    · rfl
+  unfold cacheStep
+  split
+  · rename_i hs
+    rcases hc with rfl | ⟨H', W', hH', rfl⟩
+    · rw [hlab, hsame hs]
+    · rw [shapeOf_resize orig H' W' hH'] at hs
+      simp only [Prod.mk.injEq] at hs
+      rw [hlab, hs.1, hs.2]
+  · exact hlab.symm
+
+theorem cacheRun_last (orig : List (List Nat)) (w : Nat) (hrect : ∀ row ∈ orig, row.length = w)
+    (hw : (listGetD orig 0 []).length = w) (shapes : List (Nat × Nat)) (H W : Nat)
+    (hpos : ∀ s ∈ shapes, 0 < s.1) (hH : 0 < H) :
+    cacheRun orig (shapes ++ [(H, W)]) = labelsFor orig H W := by
+  unfold cacheRun
+  rw [List.foldl_append]
+  have hinv : ∀ (l : List (Nat × Nat)) (c : List (List Nat)), CacheInv orig c → (∀ s ∈ l, 0 < s.1) →
+      CacheInv orig (l.foldl (fun c hw => cacheStep orig c hw.1 hw.2) c) := by
+    intro l
+    induction l with
+    | nil => intro c hc _; exact hc
+    | cons s l ih =>
+      intro c hc hp
+      simp only [List.foldl_cons]
+      apply ih
+      · rw [cacheStep_eq orig c w s.1 s.2 hrect hw hc (hp s (by simp))]
+        exact labelsFor_inv orig s.1 s.2 (hp s (by simp))
+      · intro s' hs'; exact hp s' (by simp [hs'])
+  simp only [List.foldl_cons, List.foldl_nil]
+  exact cacheStep_eq orig _ w H W hrect hw (hinv shapes orig (Or.inl rfl) hpos) hH
+
+end Darsia.Sig
